@@ -49,7 +49,7 @@ var pkgRules = map[string]map[string]rule{
 	"net/http":    {"Post": {"vhttp", ""}},
 	"crypto/rand": {"Read": {"vrand", ""}},
 	"os/exec":     {"Command": {"vexec", ""}, "Cmd": {"vexec", ""}},
-	"time":        {"Now": {"vtime", ""}, "Since": {"vtime", ""}, "Until": {"vtime", ""}},
+	"time":        {"Now": {"vtime", ""}, "Since": {"vtime", ""}, "Until": {"vtime", ""}, "AfterFunc": {"vtime", ""}},
 	"golang.org/x/telemetry/internal/configstore": {"Download": {"vconfigstore", ""}},
 	"golang.org/x/telemetry/internal/mmap":        {"Mmap": {"vos", "Mmap"}, "Munmap": {"vos", "Munmap"}},
 }
@@ -68,7 +68,8 @@ type pkgSpec struct {
 }
 
 var specs = []pkgSpec{
-	{"/repo", "./internal/counter", []string{"sync/atomic", "sync", "os", "os.File", "golang.org/x/telemetry/internal/mmap"}},
+	{"/repo", "./internal/counter", []string{"sync/atomic", "sync", "os", "os.File", "golang.org/x/telemetry/internal/mmap", "time"}},
+	{"/repo", ".", []string{"os", "os.File", "os/exec", "time"}},
 	{"/repo", "./internal/upload", []string{"os", "os.File", "net/http", "crypto/rand", "golang.org/x/telemetry/internal/configstore"}},
 	{"/repo", "./internal/telemetry", []string{"os"}},
 }
